@@ -5,7 +5,7 @@ Property theorems only (helper lemmas: `Proofs/Client*.lean`).  Model:
 `Model/Client.lean`; matching relation: `Spec/Match.lean` (section 4.7), via the
 finished topic-trie theorems of C06.
 -/
-import Mqtt.Proofs.ClientTopics
+import Mqtt.Proofs.ClientRefine
 
 set_option linter.unusedSimpArgs false
 
@@ -164,6 +164,16 @@ grants (return code 0, 1 or 2 and a valid filter); `deliveriesTo cb outs` the
 messages handed to callback `cb`; `onPublish c p` is what an inbound PUBLISH
 `p` dispatches - immediately for QoS 0 and 1, at its PUBREL for QoS 2
 (`C20_qos2_duplicates_suppressed`). -/
+
+/-- The hypothesis `TI c.topics store` of the theorems below is met in every
+state reached from a fresh client by an admitted history (`Ok`, see
+`C12_refines_spec_partial`: no early acknowledgement, `good` valid filters,
+…): the trie is in step with an abstract store that names exactly the
+(callback, filter) pairs the reference client holds. -/
+theorem C20_trie_in_step (evs : List Ev) (hok : Ok {} evs = true) :
+    ∃ store, TI (runState init evs).topics store ∧
+      HeldRel store (evs.foldl (fun s ev => (Mqtt.Spec.Client.step s ev).1) {}).held :=
+  (run_sim evs init {} R_init hok).2.trie
 
 /-- The statement of the property: after the SUBACK of a Subscribe has been
 processed, a delivered message invokes that request's callback exactly once if
